@@ -60,11 +60,18 @@ def shards(tier, seed):
     Sc, St, Arr, STR = xt.Sc, xt.St, xt.Arr, xt.STR
     out.append(("np-extents", [St(Arr(Sc("f64"), (3,)), Sc("f64")), St(Arr(Sc("i8"), (3,)), Sc("i64"), STR), St(Sc("i8"), Arr(universe.S_S, (2,)), Sc("f32")),
                                Arr(Arr(Sc("i8"), (3,)), (2,)), St(Arr(Sc("f64"), (2, 3)), Arr(Sc("i16"), (None,)), Sc("u8"))]))
+    # structs whose Field objects are taken over from a donor struct; array classes named by subclassing
+    U = universe
+    out.append(("shared-fields", [U.S_D1, U.S_D2, St(STR, U.A_DS, U.S_D1), St(Sc("i8"), STR, U.A_DD, STR), U.S2_ARRS, U.S2_NEST, Arr(U.S_D2, (2,)), St(U.A_DD, STR, U.S_D2, Sc("f64"), U.A_DS2)]))
+    out.append(("named-subclass", [U.A_DS, U.A_DD, U.A2_STRUCT, U.A2_REFARR, U.A2_UREF, U.A2_NESTARR, St(U.A_SS, Sc("i8")), Arr(Sc("i16"), (2, 3, 4), (1, 2, 0))]))
     return out
 
 
 def expected_kind(lt):
     return lt[0]
+
+
+_KIND = ["np"]
 
 
 def check_object(t, v, obj, ctx, res, vmode):
@@ -82,7 +89,7 @@ def check_object(t, v, obj, ctx, res, vmode):
             return
         sigs.add(key)
         f = dict(f0, action=action, last_kind=lt[0] if lt else None, n_index=len(idx), through_ref="*" in vpath, path_len=len(vpath))
-        out.append(common.violation("C02." + action, failure, f, dict(type=t, type_str=xt.show(t), vmode=vmode, vpath=common.jsonable(list(vpath)), index=list(idx), action=action, decl=xt.DECL[0]), detail))
+        out.append(common.violation("C02." + action, failure, f, dict(type=t, type_str=xt.show(t), vmode=vmode, vpath=common.jsonable(list(vpath)), index=list(idx), action=action, decl=xt.DECL[0], placement=_KIND[0]), detail))
 
     def one_call(ci, c, ncalls):
         if ncalls and ci == ncalls // 2 and ci > 0:
@@ -162,8 +169,8 @@ def run_twins(shard, tier, seed):
 def run_shard(types, tier, seed):
     if types and types[0] == "twins":
         return run_twins(types, tier, seed)
-    if types and types[0] == "np-extents":
-        xt.DECL[0] = "np-extents"  # this process only
+    if types and types[0] in ("np-extents", "shared-fields", "named-subclass"):
+        xt.DECL[0] = types[0]  # this process only
         types = types[1]
     res = common.ShardResult()
     try:
@@ -182,13 +189,18 @@ def run_shard(types, tier, seed):
         return res
     n = 0
     for ti, t in enumerate(types):
-        for vmode in ("ramp", "extreme", "minimal", "ramp:bytearray"):
+        for vmode in ("ramp", "extreme", "minimal", "ramp:bytearray", "ramp:oddrefs"):
             kind = "np"
             if vmode.endswith(":bytearray"):  # the same calls on an object living in a BufferByteArray
                 if ti % 3:
                     continue
                 vmode, kind = "ramp", "ba"
+            elif vmode.endswith(":oddrefs"):  # referents at odd distances from the references that denote them
+                if not xt.has_refs(t) or t[0] == "U" or not xt.py_expressible(t, xt.gen(t, "ramp")):
+                    continue
+                vmode, kind = "ramp", "oddrefs"
             v = xt.gen(t, vmode)
+            _KIND[0] = kind
             try:
                 obj, buf = cseam.place_object(t, v, seed, kind)
                 if not xt.veq(xt.read(t, obj), v):
@@ -224,5 +236,6 @@ def replay(case):
     res = common.ShardResult()
     ctx, _ = cseam.build_module([t])
     v = xt.gen(t, case.get("vmode", "ramp"))
-    obj, buf = cseam.place_object(t, v, 0)
+    _KIND[0] = case.get("placement", "np")
+    obj, buf = cseam.place_object(t, v, 0, _KIND[0])
     return check_object(t, v, obj, ctx, res, case.get("vmode", "ramp"))
